@@ -8,6 +8,7 @@
 //             (writes = locations whose content changed), and re-run after perturbing one location at a time
 //             (reads = locations whose perturbation changes what the item writes).  Uses the positions set by the
 //             preceding `pos` commands (they must differ from those of the last step).  Last command of a case.
+//   sharefreq   print type and replica_share_freq() of every bias
 //   setupoutput   colvarmodule::setup_output() (as an engine calls it after the configuration)
 //   endcase   print ENDCASE, destroy the module and the proxy (several scenarios in one process)
 // Reads scenarios from stdin or argv[1].
@@ -132,9 +133,12 @@ struct c12_session : public vsim_session {
     for (size_t i = 0; i < L.size(); i++) if (S1[i] != S0[i]) W.push_back(i);
     // control: an item with private state outside the locations (hills, samples, moving centres, extended coordinates)
     // does not repeat itself; its read set cannot be derived by perturbation
-    setall(L, S0);
-    run_item();
-    bool const repeatable = (getall(L) == S1);
+    bool repeatable = true;
+    for (int rep = 0; rep < 3 && repeatable; rep++) {     // (state such as sample counts may change the outcome only after a few updates)
+      setall(L, S0);
+      run_item();
+      repeatable = (getall(L) == S1);
+    }
     std::vector<size_t> R, Wsame;
     for (size_t j = 0; repeatable && j < L.size(); j++) {
       if (S0[j].empty()) continue;
@@ -211,6 +215,11 @@ struct c12_session : public vsim_session {
       return true;
     }
     if (cmd == "footprints") { footprints(); return true; }
+    if (cmd == "sharefreq") {    // per bias: type, replica_share_freq() (what makes calc_biases keep the loop on the main thread)
+      for (colvarbias *b : proxy->colvars->biases)
+        o << "SHAREFREQ " << b->name << " " << b->bias_type << " " << b->replica_share_freq() << "\n";
+      return true;
+    }
     if (cmd == "setupoutput") {   // what an engine does after the configuration was read (replica files of metadynamics are opened there)
       cvm::clear_error();
       int err = proxy->colvars->setup_output();
@@ -240,7 +249,7 @@ struct c12_session : public vsim_session {
       o << "ENDCASE" << (a.size() ? " " + a[0] : "") << "\n";
       if (proxy) { delete proxy; proxy = NULL; }
       eng.perm.clear(); eng.assign.clear(); eng.script_forces.clear(); eng.gauss.clear(); eng.gauss_pos = 0;
-      eng.smp = "serial"; eng.nthreads = 1; eng.prefix = ""; eng.has_cell = false;
+      eng.smp = "serial"; eng.nthreads = 1; eng.prefix = ""; eng.has_cell = false; eng.restart_freq = 0;
       return true;
     }
     return false;
